@@ -26,6 +26,9 @@ type profile struct {
 	Pick int `json:"pick"`
 	// Focus "<field>:<j>": the named top-level class-typed field uses the j-th constructor of its class
 	Focus string `json:"focus,omitempty"`
+	// Len "<field>:<n>": the named top-level string / bytes field (or the single element of a
+	// vector of them) is exactly n bytes long: the TL short/long string form boundary 253/254
+	Len string `json:"len,omitempty"`
 }
 
 const maxDepth = 2
@@ -38,6 +41,9 @@ func (p profile) String() string {
 	s := fmt.Sprintf("%s/%s/v%d/p%d", p.Scalars, p.Opt, p.Vec, p.Pick)
 	if p.Focus != "" {
 		s += "/" + p.Focus
+	}
+	if p.Len != "" {
+		s += "/len:" + p.Len
 	}
 	return s
 }
@@ -116,7 +122,50 @@ func (b *builder) fill(c *ctor, sv reflect.Value, depth int) {
 			}
 		}
 		b.set(fv, f.typ, depth, pick, f.cond)
+		if depth == 0 && p.Len != "" {
+			parts := strings.SplitN(p.Len, ":", 2)
+			if n, err := strconv.Atoi(parts[1]); err == nil && parts[0] == f.name {
+				setLen(fv, f.typ, n)
+			}
+		}
 	}
+}
+
+// lenKind classifies a field type for the boundary-length cases: "string", "bytes" or "".
+func lenKind(t reflect.Type) string {
+	if t.Kind() == reflect.Slice && t != tBytes {
+		t = t.Elem()
+	}
+	switch {
+	case t == tBytes:
+		return "bytes"
+	case t.Kind() == reflect.String:
+		return "string"
+	}
+	return ""
+}
+
+// setLen gives a string / bytes field (or a one-element vector of them) a value of exactly n bytes.
+// The content starts with 0xfe bytes so that a length byte read from the data is conspicuous.
+func setLen(fv reflect.Value, t reflect.Type, n int) {
+	if t.Kind() == reflect.Slice && t != tBytes {
+		s := reflect.MakeSlice(t, 1, 1)
+		setLen(s.Index(0), t.Elem(), n)
+		fv.Set(s)
+		return
+	}
+	data := kit.Pattern("count", n)
+	for i := 0; i < n && i < 4; i++ {
+		data[i] = 0xfe
+	}
+	if t == tBytes {
+		fv.SetBytes(data)
+		return
+	}
+	for i := range data {
+		data[i] = 'a' + data[i]%26 // keep strings printable ASCII
+	}
+	fv.SetString(string(data))
 }
 
 func (b *builder) set(fv reflect.Value, t reflect.Type, depth, pick int, optional bool) {
